@@ -1,7 +1,7 @@
 (** The statements of Props/C11.v, in their final form. *)
 From Coq Require Import List ZArith String Ascii Bool Lia ZifyBool ZifyNat Arith Permutation Sorted.
 From Thunder Require Import Lib.Json Pagination.Model Pagination.ProofsSlice Pagination.ProofsSort
-  Pagination.ProofsWalk Pagination.ProofsPage.
+  Pagination.ProofsWalk Pagination.ProofsPage Pagination.ProofsFilter Pagination.Base64.
 Import ListNotations.
 Open Scope list_scope.
 
@@ -68,3 +68,62 @@ Proof. intros Hinj cfg l a k fuel. apply walk_forward_fuel. exact Hinj. Qed.
 (** base_edges unfolded, for the statements *)
 Lemma base_edges_eq enc cfg l a : base_edges enc cfg l a = nodes_to_edges enc (base_list cfg l a).
 Proof. reflexivity. Qed.
+
+(** * Sorting *)
+
+(** "x does not come after y": y is not strictly below x in the requested order *)
+Definition sorted_by (f : string) (desc : bool) : list node -> Prop :=
+  Sorted (fun x y => node_less f desc y x = false).
+
+Definition same_key (f : string) (desc : bool) (x y : node) : bool :=
+  (negb (node_less f desc x y) && negb (node_less f desc y x))%bool.
+
+Lemma base_list_unsorted cfg l a :
+  a_sortby a = None -> base_list cfg l a = apply_text_filter cfg l a.
+Proof. intros H. unfold base_list, apply_sort. rewrite H. reflexivity. Qed.
+
+Lemma base_list_sorted_stable cfg l a f :
+  a_sortby a = Some f -> sort_ok cfg a ->
+  Permutation (base_list cfg l a) (apply_text_filter cfg l a) /\
+  sorted_by f (a_desc a) (base_list cfg l a) /\
+  (forall z, filter (same_key f (a_desc a) z) (base_list cfg l a) =
+             filter (same_key f (a_desc a) z) (apply_text_filter cfg l a)).
+Proof.
+  intros Hf Hs. split; [apply base_list_perm; exact Hs|].
+  unfold base_list, apply_sort, sort_ok in *. rewrite Hf in *. rewrite Hs. split.
+  - apply (stable_sort_sorted (node_less f (a_desc a))).
+    + apply node_less_irrefl.
+    + apply node_less_trans.
+  - intros z. apply (stable_sort_stable (node_less f (a_desc a))). apply node_less_negtrans.
+Qed.
+
+Lemma base_list_unique cfg l a f l' :
+  a_sortby a = Some f -> sort_ok cfg a ->
+  sorted_by f (a_desc a) l' ->
+  (forall z, filter (same_key f (a_desc a) z) l' =
+             filter (same_key f (a_desc a) z) (apply_text_filter cfg l a)) ->
+  l' = base_list cfg l a.
+Proof.
+  intros Hf Hs Hsorted Hstable.
+  unfold base_list, apply_sort, sort_ok in *. rewrite Hf in *. rewrite Hs.
+  apply (stable_sort_unique (node_less f (a_desc a))); auto.
+  - apply node_less_irrefl.
+  - apply node_less_trans.
+  - apply node_less_negtrans.
+Qed.
+
+(** what the order is: integers by <, strings bytewise after lower-casing; reversed when descending *)
+Lemma node_less_int f desc x y zx zy :
+  lookup_def (SInt 0) f (n_sorts x) = SInt zx -> lookup_def (SInt 0) f (n_sorts y) = SInt zy ->
+  node_less f desc x y = if desc then Z.ltb zy zx else Z.ltb zx zy.
+Proof.
+  intros Hx Hy. unfold node_less, sort_key, key_ltb. rewrite Hx, Hy. simpl.
+  destruct desc; rewrite andb_false_r, orb_false_r; reflexivity.
+Qed.
+
+Lemma node_less_str f desc x y sx sy :
+  lookup_def (SInt 0) f (n_sorts x) = SStr sx -> lookup_def (SInt 0) f (n_sorts y) = SStr sy ->
+  node_less f desc x y = if desc then str_ltb (lower sy) (lower sx) else str_ltb (lower sx) (lower sy).
+Proof.
+  intros Hx Hy. unfold node_less, sort_key, key_ltb. rewrite Hx, Hy. simpl. destruct desc; reflexivity.
+Qed.
